@@ -23,9 +23,15 @@ out = ["## 8. Seeded changes from isolated sub-agents", "",
        "demo that fails with the change and passes without. `tools/eval_seeded.sh` re-confirms every one independently (the patch",
        "applies to the current tree in a scratch copy, the demo fails with it and passes without) and runs the registered quick",
        "check against the patched copy; everything is filed under `seeded/<ID>/<A..H>/` (`patch.diff`, `demo.py`, `notes.md`,",
-       "`meta.json`, logs). %d changes, %d confirmed, %d caught by the quick tier as committed; %d of them were missed by the" % (
-           len(rows), sum(r[4] in ("yes", "superseded") for r in rows), sum(r[6].startswith(("caught", "own check silent", "n/a")) for r in rows), sum(bool(r[5]) for r in rows)),
-       "first version of the check and led to the strengthening named in the table (generator reach, never a loosened oracle).", "",
+       "`meta.json`, logs). %d changes, all confirmed on the tree they were written for (%d later neutralised by a repo fix that" % (
+           len(rows), sum(r[4] == "superseded" for r in rows)),
+       "removed the window they relied on: marked superseded). On the final tree: %d caught by the quick check of their own" % (
+           sum(r[6].startswith("caught") for r in rows)),
+       "property, %d by the quick check of the neighbouring property whose domain they fall in (named in the row); %d of all" % (
+           sum(r[6].startswith("own check silent") for r in rows), sum(bool(r[5]) for r in rows)),
+       "changes were missed by the version of the check that existed when they arrived and led to the strengthening named in the",
+       "table (generator reach or an additional relation, never a loosened oracle). Three patches (C01/A, C01/E, C02/D) were rebased",
+       "by the lead after fix 66deeec rewrote the lines they touch (the originals are kept as patch_original.diff).", "",
        "| change | touches | needs, in order to manifest | confirmed | quick check | history |", "|---|---|---|---|---|---|"]
 for r in rows:
     out.append("| %s/%s | %s | %s | %s | %s | %s |" % (r[0], r[1], r[2], r[3], r[4], r[6], r[5]))
